@@ -774,6 +774,32 @@ def description_update_unit(M, P):
     return h
 
 
+# ------------------------------------------------------------------ (k) a session the controller itself closes after an HTTP error
+def http_error_unit(M8):
+    """post_tlv closes the socket of an established session when the accessory answers a TLV request with HTTP 4xx; when the loop
+    then reports the loss of that socket the connector must be started (otherwise the pairing stays disconnected for good)"""
+    from . import c08
+    from .c19w import Waiter
+
+    def h(ex):
+        status = ex.choice("http_status", [470, 400, 429])
+        W = c08.World(M8, 1)
+        w = Waiter(W.conn.post_tlv("/pairings", [(6, b"\x01")]))
+        w.step()
+        ex.require(w.state == "suspended" and len(W.tr.written) == 1, "(harness) the request is in flight")
+        body = b"\x06\x01\x02\x07\x01\x02"
+        W.append("response", 0, b"HTTP/1.1 %d Error\r\nContent-Type: application/pairing+tlv8\r\nContent-Length: %d\r\n\r\n%s" % (status, len(body), body))
+        W.read(len(W.wire))
+        w.step()
+        ex.require(w.state == "returned" and dict(w.value).get(7) == b"\x02", "post_tlv hands the TLV body of an HTTP error reply to its caller")
+        ex.require(W.tr.closed, "the session is closed after an HTTP error reply")
+        before = len(W.connectors)
+        W.proto.connection_lost(None)  # the loop reports the loss of the socket the controller closed
+        ex.require(len(W.connectors) == before + 1, "the loss of a session closed after an HTTP error starts the connector")
+        return ex.observe([status, len(W.connectors)])
+    return h
+
+
 # ------------------------------------------------------------------ (j) zeroconf records reach the pairing
 def browser_unit(M):
     """a record for the pairing's id reaches the pairing (which then hastens the reconnect) however it arrives: directly, through
@@ -893,6 +919,9 @@ def build(tier, mutate=None):
     ZC, ZR = c19w.copies_zc(ble_adv.copies(mutate), mutate), c19w.reals_zc(ble_adv.reals())
     units.append(Unit("zeroconf-update/record-reaches-the-pairing", browser_unit(ZC), browser_unit(ZR),
                       bounds={"route": "direct / browser / browser after a goodbye within the resolve delay", "before": "nothing / a malformed record / an earlier record"}))
+    from . import c08
+    units.append(Unit("established-session/http-error-then-loss", http_error_unit(c08.copies(mutate)), http_error_unit(real_ipc),
+                      bounds={"HTTP status": [470, 400, 429]}))
     units.append(Unit("shutdown/update-while-closing", shutdown_unit(C, CP), shutdown_unit(R, real_ipp),
                       bounds={"connector": "none / running / finished", "back-off sleep": "none / pending", "interleaved": "one zeroconf update while close() is suspended"}))
     units.append(Unit("hosts/_get_connect_hosts", hosts_unit(C), hosts_unit(R), bounds={"hosts": 3, "exclusions": "every subset"}, regions=["all-excluded"]))
